@@ -7,6 +7,7 @@ CONSTANTS
   BSet = {1, 2}
   Costs = {1, 2}
   MaxCalls = 3
-INVARIANTS SuccessSound DegenerateNeverSucceeds Bounded FalseOnlyExhausted FirstUsableReturned PruneRule
+  Rounding = FALSE
+INVARIANTS SuccessSound DegenerateReturnsBoundaryPoints Bounded FalseOnlyExhausted FirstUsableReturned PruneRule
            OrdSound OrdSorted OrdQueueSorted OrdNothingUsableDiscarded OrdAtMostTwoBatches
            OrdFalseOnlyAfterFreshBatch OrdFreshExitOnlyDegenerate EmitDone
